@@ -648,7 +648,8 @@ def _order_ok(names, *seq):
     return all(names.count(x) == 1 for x in seq) and idx == sorted(idx)
 
 
-@harness('O8', targets='kopf._core.reactor.observation.namespace_observer', props=['C19', 'C13'],
+@harness('O8', targets='kopf._core.reactor.observation.namespace_observer', props=['C19', 'C13', 'C01', 'C03'],
+         prop_clauses={'C01': ['population.configured'], 'C03': ['uses_the_backbone_resource', 'population.listing', 'population.fallback_403', 'population.configured', 'population.committed_under_lock_then_notified', 'never_returns']},
          clauses=['uses_the_backbone_resource', 'population.listing', 'population.fallback_403', 'population.configured',
                   'population.committed_under_lock_then_notified', 'ready_after_population', 'watches_when_permitted',
                   'no_observation_when_configured', 'watch_403_idles', 'other_failures_propagate', 'never_returns'],
@@ -773,7 +774,8 @@ def O8(vc):
     return ('watched', type(thrown).__name__, outcome)
 
 
-@harness('O9', targets='kopf._core.reactor.observation.resource_observer', props=['C19', 'C13', 'C17'],
+@harness('O9', targets='kopf._core.reactor.observation.resource_observer', props=['C19', 'C13', 'C17', 'C09', 'C03'],
+         prop_clauses={'C09': ['scans_the_groups_of_all_selectors', 'population.revised_with_the_scan'], 'C03': ['scans_the_groups_of_all_selectors', 'population.revised_with_the_scan', 'population.backbone_filled', 'population.committed_under_lock_then_notified', 'never_returns']},
          clauses=['scans_the_groups_of_all_selectors', 'population.revised_with_the_scan', 'population.backbone_filled',
                   'population.committed_under_lock_then_notified', 'ready_after_population', 'uses_the_backbone_resource',
                   'watches_when_enabled', 'disabled_idles', 'watch_403_idles', 'other_failures_propagate', 'never_returns'],
@@ -1063,7 +1065,8 @@ def O10c(vc):
 
 
 # ================================================================================================ O11
-@bounded('O11', targets='kopf._cogs.structs.references.Resource.get_url', props=['C08', 'C19', 'C03', 'C06', 'C13', 'C17'],
+@bounded('O11', targets='kopf._cogs.structs.references.Resource.get_url', props=['C08', 'C19', 'C03', 'C06', 'C13', 'C17', 'C05'],
+         prop_clauses={'C05': ['path_addresses_exactly_the_object']},
          clauses=['path_addresses_exactly_the_object', 'api_root', 'query_is_the_params', 'server_prefix', 'refusals'],
          universe='(group, version) in {("", v1), (example.com, v1), (example.com, v1beta1), (apps, v1)} x namespaced {True, False} x '
                   'namespace {None, ns1} x name {None, obj1} x subresource {None, status} x params {None, {}, 1 pair, 2 pairs with '
@@ -1346,7 +1349,8 @@ def _collect(agen):
             raise RuntimeError('the generator suspended')
 
 
-@bounded('N6', targets='kopf._cogs.clients.api.iter_jsonlines', props=['C19', 'C03'],
+@bounded('N6', targets='kopf._cogs.clients.api.iter_jsonlines', props=['C19', 'C03', 'C13', 'C17'],
+         prop_clauses={'C13': ['yields_the_nonempty_lines_in_order', 'no_crash'], 'C17': ['yields_the_nonempty_lines_in_order']},
          clauses=['yields_the_nonempty_lines_in_order', 'chunk_size_passed', 'no_crash'],
          universe='every byte text over {a, b, LF} up to length 7 (3280 texts) x every way to cut it into non-empty chunks '
                   '(2^(n-1)) plus variants with empty chunks interleaved; + 300 seeded random texts of length 8..40 over '
@@ -1446,7 +1450,8 @@ class _Stopper:
         return n - len(self.callbacks)
 
 
-@harness('N6s', targets='kopf._cogs.clients.api.stream', props=['C19', 'C12', 'C13', 'C01', 'C03'],
+@harness('N6s', targets='kopf._cogs.clients.api.stream', props=['C19', 'C12', 'C13', 'C01', 'C03', 'C09', 'C17'],
+         prop_clauses={'C09': ['one_object_per_line', 'stopper.before_response', 'stopper.closes_the_stream', 'stopper.ends_silently'], 'C17': ['one_object_per_line']},
          clauses=['one_get_request', 'one_object_per_line', 'response_closed_on_every_exit', 'stopper.before_response',
                   'stopper.cancels_the_pending_request', 'stopper.closes_the_stream', 'stopper.ends_silently',
                   'callbacks_removed', 'other_failures_propagate'],
